@@ -47,3 +47,5 @@ open Cst.C03
 #print axioms Cst.Gen.walk_map
 #print axioms Cst.Gen.it_new
 #print axioms Cst.Gen.it_next
+#print axioms Cst.Gen.children_new
+#print axioms Cst.Gen.ec_next
